@@ -138,6 +138,7 @@ class CoreEnforcer:
         self.model.load_model(self.model_path)
         self.model.print_model()
         self.fm = FunctionMap.load_function_map()
+        self.eft = get_effector(self.model["e"]["e"].value)
 
     def get_model(self):
         """gets the current model."""
@@ -149,6 +150,8 @@ class CoreEnforcer:
 
         self.model = m
         self.fm = FunctionMap.load_function_map()
+        if m is not None:
+            self.eft = get_effector(m["e"]["e"].value)
 
     def get_adapter(self):
         """gets the current adapter."""
